@@ -520,6 +520,18 @@ func (tb *TB) Bin(op Op, a, b *Term) *Term {
 		if b.Op == OpConst && b.C == 1 {
 			return a
 		}
+		if b.Op == OpConst && w == 64 && b.C != 0 && int64(b.C) > 0 {
+			if lo, hi, ok := tb.termRange(a); ok && lo.Sign() >= 0 && hi.IsUint64() && hi.Uint64() < b.C {
+				return tb.Const(w, 0)
+			}
+		}
+	case OpURem, OpSRem:
+		// x % c == x when 0 <= x < c (interval analysis)
+		if b.Op == OpConst && w == 64 && b.C != 0 && int64(b.C) > 0 {
+			if lo, hi, ok := tb.termRange(a); ok && lo.Sign() >= 0 && hi.IsUint64() && hi.Uint64() < b.C {
+				return a
+			}
+		}
 	}
 	return tb.mk(&Term{Op: op, S: a.S, A: []*Term{a, b}})
 }
